@@ -94,6 +94,19 @@ def gen_tree(rng, rich=True):
     add("sym/README", "link", target="../ChangeLog")
     add("sym/conf", "link", target="not-there-either")
     add("sym/vt.h", "link", target="/usr/lib/vt-nx/vt.h")
+    # the same link names again, other targets
+    add("sym2", "dir")
+    add("sym2/README", "link", target="../README")
+    add("sym2/conf", "link", target="somewhere-else")
+    add("sym2/vt.h", "link", target="/usr/lib/vt-nx/other.h")
+    # two trees whose top directory has the same name and holds a same-named symlink to a directory
+    for t, sub in (("t1", "a"), ("t2", "b")):
+        add(t, "dir")
+        add(t + "/pack", "dir")
+        add(t + "/pack/" + sub, "dir")
+        add("%s/pack/%s/in-%s.txt" % (t, sub, sub), "file")
+        add(t + "/pack/dl", "link", target=sub)
+        add("%s/pack/top-%s.txt" % (t, sub), "file")
     add("over", "dir")
     add("over/fl", "file")
     add("over/dg", "file")
@@ -116,10 +129,10 @@ def gen_tree(rng, rich=True):
 
 
 INSOPTS = ["-m0644"] * 8 + ["-m0600", "-m 0640", "--mode=0444", "-m644", "-m0644 -p", "-m0755", "-m0644 -o 0 -g 0",
-                            "-m0640 -g 0", "-m 2755", "-p -m0644"]
+                            "-m0640 -g 0", "-m 2755", "-p -m0644", "-m4755 -o 0", "-m2755 -g 0", "-m6755 -o 0 -g 0"]
 DIROPTS = ["-m0755"] * 8 + ["-m0700", "-m 0750", "--mode=0711", "-m0775"]
-EXEOPTS = ["-m0755"] * 6 + ["-m0700", "-m0555", "-m0750 -p"]
-LIBOPTS = ["-m0644"] * 4 + ["-m0755", "-m0444"]
+EXEOPTS = ["-m0755"] * 6 + ["-m0700", "-m0555", "-m0750 -p", "-m4755 -o 0", "-m 2711 -g 0 -o 0"]
+LIBOPTS = ["-m0644"] * 4 + ["-m0755", "-m0444", "-m4755 -g 0"]
 # option strings the python side cannot handle itself: it must fall back to the external install command
 FALLBACK_INSOPTS = ["-m0644 -s", "--bogus", "-m u=rw,go=r", "-m0644 -C", "-mu=rwx,go=rx", "-m0644 --no-such-option",
                     "-m0600 -v", "-m a=r", "-m0644 -S .bak", "-m0644 -b"]
@@ -312,7 +325,10 @@ def _relpath(target, start_dir):
     return "/".join([".."] * (len(b) - i) + a[i:]) or "."
 
 
-OVER_VARIANTS = ["dosym-then-file", "tree-twice", "dosym-then-file", "links-twice", "dosym-then-file", "tree-then-files",
+SETID_OPTS = ["-m4755 -o 0", "-m4755 -o root", "-m2755 -g 0", "-m6755 -o 0 -g 0", "-m 4711 -o 0", "--mode=2750 -g 0",
+              "-o 0 -m4755", "-m6555 -g 0", "-m4755 -g 0 -p"]
+
+OVER_VARIANTS = ["setid-owner", "dirlink-trees", "setid-owner", "dosym-then-file", "tree-twice", "dosym-then-file", "links-twice", "dosym-then-file", "tree-then-files",
                  "dosym-then-file", "hardlink-then-file", "file-then-symlink", "hardlink-then-file", "file-then-symlink"]
 
 
@@ -332,6 +348,24 @@ def overwrite_script(rng, eapi, variant=None):
     variants = ["dosym-then-file"] * 5
     if e >= 4:
         variants += ["tree-twice", "links-twice", "tree-then-files", "tree-twice", "tree-then-files"]
+    variants += ["setid-owner"]
+    if e >= 4:
+        variants += ["dirlink-trees"]
+    if variant == "setid-owner" or (variant not in variants and rng.random() < 0.1):
+        # set-id bits together with -o/-g on regular files: the result is what install(1) gives, bits included
+        o = rng.choice(SETID_OPTS)
+        h, key, args = rng.choice([("doins", "insopts", ["prog", "tool.sh"]), ("doexe", "exeopts", ["prog"]),
+                                   ("doexe", "exeopts", ["tool.sh", "prog"]), ("doins", "insopts", ["-r", "plain"]),
+                                   ("doinitd", "exeopts", ["init"]), ("doconfd", "insopts", ["conf"])] +
+                                  ([("dolib", "libopts", ["libvt.so.1"])] if e <= 6 else []))
+        if e >= 8 and h in ("doinitd", "doconfd"):
+            h, key, args = "doexe", "exeopts", ["prog"]
+        return "setid-owner", [rq(h, args, **{key: o})]
+    if variant == "dirlink-trees" and e >= 4:
+        # two trees with a same-named symlink to a directory: the second may be refused, but not be answered with
+        # success while the old link stays
+        a, b = rng.sample(["t1/pack", "t2/pack"], 2)
+        return "dirlink-trees", [rq("doins", ["-r", a]), rq("doins", ["-r", b])]
     if e <= 3:
         variants += ["hardlink-then-file"] * 2
     else:
